@@ -81,10 +81,30 @@ type Case struct {
 	Cut  int      `json:"cut"`            // >= 0: the JSON text is truncated to Cut/1000 of its length
 	Tail string   `json:"tail,omitempty"` // non-whitespace bytes appended after the complete tree ("@self" = the document once more)
 	Msgs []Pair   `json:"msgs"`
+	// Pad > 0: the document is the tree followed, inside one more fifo group,
+	// by inert nodes and one long header value of about Pad bytes in all
+	// (documents of many KB, as real configurations are).
+	Pad int `json:"pad,omitempty"`
+	// Chunked: over HTTP the document is sent without Content-Length.
+	Chunked bool `json:"chunked,omitempty"`
+}
+
+// tree is the configuration the case stands for (Tree, padded when Pad > 0).
+func (c Case) tree() *tr.Node {
+	if c.Pad <= 0 {
+		return c.Tree
+	}
+	root := &tr.Node{ID: 600000, T: tr.Fifo, Kids: []*tr.Node{c.Tree}}
+	half := c.Pad / 2
+	for i := 0; i*48 < half; i++ {
+		root.Kids = append(root.Kids, &tr.Node{ID: 600001 + i, T: tr.Noop, P: map[string]string{"name": fmt.Sprintf("inert-%06d", i)}})
+	}
+	root.Kids = append(root.Kids, &tr.Node{ID: 699999, T: tr.HeaderModifier, P: map[string]string{"name": "X-Verif-Pad", "value": strings.Repeat("x", c.Pad-half)}})
+	return root
 }
 
 func (c Case) text() []byte {
-	b := c.Tree.JSON()
+	b := c.tree().JSON()
 	if c.Cut >= 0 {
 		n := len(b) * c.Cut / 1000
 		if n >= len(b) {
@@ -809,13 +829,49 @@ func bounded(check string, f func()) bool {
 // History is a reconfiguration history through martianhttp.Modifier.
 type History struct {
 	Steps []Step `json:"steps"`
+	// HTTP: the documents are POSTed over a real HTTP connection to a server
+	// whose handler is the martianhttp.Modifier (as a proxy's API server is).
+	HTTP bool `json:"http,omitempty"`
 }
+
+// hideLen hides the length of the reader so that net/http sends it chunked.
+type hideLen struct{ io.Reader }
 
 func runHistory(h History) kit.Verdict {
 	if registryStuck.Load() {
 		return nil // see registryStuck: the first such history is the finding
 	}
 	m := martianhttp.NewModifier()
+	// post delivers one document: in memory, or over a real connection
+	post := func(c *Case) (int, string, error) {
+		rw := httptest.NewRecorder()
+		m.ServeHTTP(rw, httptest.NewRequest("POST", "/configure", strings.NewReader(string(c.text()))))
+		return rw.Code, rw.Body.String(), nil
+	}
+	if h.HTTP {
+		l, err := netkit.Listen()
+		if err != nil {
+			panic(err)
+		}
+		srv := &http.Server{Handler: m}
+		go srv.Serve(l)
+		defer srv.Close()
+		client := &http.Client{Transport: &http.Transport{}, Timeout: 4 * kit.T()}
+		defer client.CloseIdleConnections()
+		post = func(c *Case) (int, string, error) {
+			var body io.Reader = strings.NewReader(string(c.text()))
+			if c.Chunked {
+				body = hideLen{body}
+			}
+			res, err := client.Post("http://"+l.Addr().String()+"/configure", "application/json", body)
+			if err != nil {
+				return 0, "", err
+			}
+			defer res.Body.Close()
+			b, _ := io.ReadAll(io.LimitReader(res.Body, 4096))
+			return res.StatusCode, string(b), nil
+		}
+	}
 	var active *tr.Node
 	var activeText []byte
 	var v kit.Verdict
@@ -834,12 +890,17 @@ func runHistory(h History) kit.Verdict {
 				return kit.Failf("C12/reconfigure/register-"+shape()+"/call-does-not-return", "step %d: parse.Register of a harness-defined node type did not return within %v; history so far: %s", i, 3*kit.T(), js(h.Steps[:i+1]))
 			}
 		case st.Post != nil:
-			rw := httptest.NewRecorder()
-			if !bounded("reconfigure", func() {
-				m.ServeHTTP(rw, httptest.NewRequest("POST", "/configure", strings.NewReader(string(st.Post.text()))))
-			}) {
+			var rw struct {
+				Code int
+				Body string
+			}
+			var perr error
+			if !bounded("reconfigure", func() { rw.Code, rw.Body, perr = post(st.Post) }) {
 				registryStuck.Store(true)
 				return kit.Failf("C12/reconfigure/post-"+shape()+"/call-does-not-return", "step %d: POST did not return within %v: %s", i, 3*kit.T(), st.Post.text())
+			}
+			if perr != nil {
+				return kit.Failf("C12/reconfigure/http/post-failed", "step %d: POST over HTTP: %v", i, perr)
 			}
 			if st.Post.mustReject() && st.Post.faultName() == tr.FaultUnknownName && st.Post.Cut < 0 && st.Post.Tail == "" {
 				unknownRejected = true
@@ -855,7 +916,7 @@ func runHistory(h History) kit.Verdict {
 					v.Addf("C12/reconfigure/valid-post/refused", "step %d: POST of a valid configuration answered %d %q: %s", i, rw.Code, rw.Body.String(), st.Post.text())
 					return v
 				}
-				active, activeText = st.Post.Tree, st.Post.text()
+				active, activeText = st.Post.tree(), st.Post.text()
 			}
 		case st.Eval != nil:
 			where := "reconfigure/after-accepted-post"
